@@ -152,6 +152,19 @@ def r3(ctx):
     ctx.obligation(ok)
     if not ok:
         ctx.violation("visited/inodes", ctx.where(OK_TO_VISIT), "ok_to_visit_dir must record the inodes it lets through")
+    # every directory entered while links are followed is recorded: the insert is conditioned on the option alone (not on the
+    # depth, on being a root, on the traversal mode ..) - a directory left out of the set is listed again when a link leads back to it
+    for c in ins:
+        if c["m"] != "insert":
+            continue
+        pos_, neg_ = guard_atoms([g for g in (guards_of(hir, c) or []) if g[0] == "if"])
+        extra = [render(a) for a in pos_ if "current_follow_symlinks" not in render(a)] + ["!" + render(a) for a in neg_ if "visited_dirs" not in render(a)]
+        okg = not extra
+        ctx.obligation(okg)
+        if not okg:
+            ctx.violation("visited/recorded-unconditionally", ctx.where(VISIT_DIR, c),
+                          "when links are followed every directory entered must be recorded in the visited set; here it is recorded only under `%s`: "
+                          "a directory that is not recorded (a search root, say) is listed again when a link resolves to it" % " && ".join(extra))
     # "once per query": the two visited sets only grow during a query - nothing in the crate clears, drains, replaces or
     # removes from them (a per-root reset lets a second root list a directory the first one reached through a link)
     shrink = []
